@@ -1,5 +1,7 @@
 import LenaModel.DriverUtil
 import LenaModel.Model.C12
+import LenaModel.Model.C12Ext
+import LenaModel.Model.C12Spec
 /-! Model driver for C12.  Numbers are exact rationals written as strings `"n/d"` (or `"n"`, or a JSON integer);
 nested bins are nested JSON arrays of such numbers.
 
@@ -28,7 +30,29 @@ Requests -> replies (`{"e":name}` stands for a raised exception everywhere):
   {"op":"csv_graph","g":graph,"to_csv":bool}                             -> {"unchanged":true} | {"rows":..}
   {"op":"scale_to","target":q|"hist"|"graph","group":[{"hist":hist}|{"graph":graph}|"other",..],"az":bool,"au":bool}
       -> {"group":[{"hist":hist}|{"graph":gstate}|"other",..],"e":name|null}
-  {"op":"scale_to_call","item":…,"s":q}                                  -> {"r":item} | {"e":name} -/
+  {"op":"scale_to_call","item":…,"s":q}                                  -> {"r":item} | {"e":name}
+Second part (Model/C12Ext.lean):
+  {"op":"iter_coord","h":hist,"ranges_given":bool,"coord_ranges":{"single":[q,q]}|{"many":[[q,q],..]}}
+      -> {"cells":[[edges,content,idx],..]}              (the interpolation guess of the bin search is `ind_min`)
+  {"op":"bin_edges","index":n|[n..],"edges":edges}      -> {"pair":[q,q]} | {"pairs":[[q,q],..]}
+  {"op":"bin_on_index","index":n|[n..],"bins":nested}   -> {"r":nested}
+  {"op":"csv_text","h":hist,"to_csv":bool,"ctx_dup":bool|null,"dup":bool,"sep":str,"header":str|null,"row_end":str,
+   "last_row_end":str}                                  -> {"unchanged":true} | {"text":str}
+  {"op":"fmt","xs":[q..]}                               -> {"r":[str..]}          ("{:f}")
+  {"op":"group_scale","seq":bool, …as scale_to}         -> as scale_to
+  {"op":"graph_add_any","a":graph,"b":graph|"other"|{"hist":hist}}   -> as graph_add
+  {"op":"h2g_el","mv":null|"double"|"pair"|"triple"|"notvar","mode":str,"fields":names,"scale":..,"is_hist":bool,
+   "h":hist,"to_graph":bool}  -> {"e":name,"phase":"init"|"run"} | {"unchanged":true} | {"g":gstate,"rows":..,"hscale":..}
+Specification vocabulary (Model/C12Spec.lean), compared by the harness with Python reference computations:
+  {"op":"spec_hist","h":hist,"ranges":ranges|null}
+      -> {"wf":bool,"valid":bool,"nonempty_axes":bool,"index_prod":[[n..]..],"cells":[{"idx","in_range","edges","row"}..],
+          "valid_ranges":bool|null,"selected":[[n..]..]|null}
+  {"op":"spec_map","bins":nested,"c":q}                 -> {"map":nested,"values":[q..],"sum":q}
+  {"op":"spec_zip","a":nested,"b":nested,"w":q}         -> {"zip":nested,"get":[[idx,q|null]..]}      (x + y*w; get? per cell of a)
+  {"op":"spec_points","h":hist,"mode":str,"mv":..}      -> {"points":[[q..]..]}
+  {"op":"spec_csv1","xs":[q..],"x_last":q,"vals":[q..],"dup":bool} -> {"rows":..,"bins":nested}
+  {"op":"spec_csv2","xs":..,"x_last":q,"ys":..,"y_last":q,"vals":[[q..]..],"dup":bool} -> {"rows":..,"bins":nested}
+  {"op":"spec_names","coord":str,"names":[str..]}       -> {"r":[[is_err,error_field_of]..]} -/
 open Lean Lena Lena.Drv Lena.C12
 
 def ratOfString (s : String) : Option Rat :=
@@ -165,6 +189,11 @@ def structJson : Struct → Json
   | .other => Json.str "other"
 
 def optNumJson (o : Option Rat) : Json := ofOpt ratJson o
+
+def parseIndex (j : Json) : Option IndexArg :=
+  match nat? j with
+  | some n => some (.num n)
+  | none => ((arr? j).bind (fun a => a.toList.mapM nat?)).map IndexArg.tuple
 
 def handle (j : Json) : Json :=
   match str? (getD j "op") with
@@ -305,6 +334,147 @@ def handle (j : Json) : Json :=
       | .error (some er) => excObj er
       | .error none => Json.mkObj [("e", Json.str "Other:AttributeError")]
     | _, _ => err "bad scale_to_call args"
+  | some "iter_coord" =>
+    let crj := getD j "coord_ranges"
+    let pairOf (x : Json) : Option (Rat × Rat) := do
+      let l ← ratList? x
+      match l with
+      | [a, b] => some (a, b)
+      | _ => none
+    let cr : Option CoordRangesArg :=
+      match pairOf (getD crj "single") with
+      | some p => some (.single p)
+      | none => ((arr? (getD crj "many")).bind (fun a => a.toList.mapM pairOf)).map CoordRangesArg.many
+    match parseHist (getD j "h"), bool? (getD j "ranges_given"), cr with
+    | some h, some rgv, some cr =>
+      match iterCellsCoord (fun _ lo _ => (lo : Int)) h rgv cr with
+      | .ok l => Json.mkObj [("cells", ofList (fun (c : HistCell) => Json.arr #[ofList pairJson c.edges, narrJson c.bin, ofList ofNat c.index]) l)]
+      | .error er => excObj er
+    | _, _, _ => err "bad iter_coord args"
+  | some "bin_edges" =>
+    match parseIndex (getD j "index"), parseEdges (getD j "edges") with
+    | some ix, some e =>
+      match getBinEdges ix e with
+      | .ok (.pair lo hi) => Json.mkObj [("pair", pairJson (lo, hi))]
+      | .ok (.pairs l) => Json.mkObj [("pairs", ofList pairJson l)]
+      | .error er => excObj er
+    | _, _ => err "bad bin_edges args"
+  | some "bin_on_index" =>
+    match parseIndex (getD j "index"), parseNArr (getD j "bins") with
+    | some ix, some b =>
+      match getBinOnIndex ix b with
+      | .ok r => Json.mkObj [("r", narrJson r)]
+      | .error er => excObj er
+    | _, _ => err "bad bin_on_index args"
+  | some "csv_text" =>
+    match parseHist (getD j "h"), bool? (getD j "to_csv"),
+          (if (getD j "ctx_dup").isNull then some none else (bool? (getD j "ctx_dup")).map some), bool? (getD j "dup"),
+          str? (getD j "sep"), str? (getD j "row_end"), str? (getD j "last_row_end") with
+    | some h, some tc, some cd, some d, some sep, some re, some lre =>
+      let f : CsvFormat := { separator := sep, header := str? (getD j "header"), rowEnd := re, lastRowEnd := lre }
+      match toCsvHistText f h tc cd d with
+      | .ok .unchanged => Json.mkObj [("unchanged", Json.bool true)]
+      | .ok (.text t) => Json.mkObj [("text", Json.str t)]
+      | .error er => excObj er
+    | _, _, _, _, _, _, _ => err "bad csv_text args"
+  | some "fmt" =>
+    match ratList? (getD j "xs") with
+    | some xs => Json.mkObj [("r", ofList (fun x => Json.str (fmtF x)) xs)]
+    | none => err "bad fmt args"
+  | some "group_scale" =>
+    let tj := getD j "target"
+    let target : Option ScaleTarget := match str? tj with
+      | some "hist" => some .selectHist
+      | some "graph" => some .selectGraph
+      | _ => (rat? tj).map ScaleTarget.num
+    match target, bool? (getD j "seq"), (arr? (getD j "group")).bind (fun a => a.toList.mapM parseStruct), bool? (getD j "az"), bool? (getD j "au") with
+    | some t, some sq, some group, some az, some au =>
+      let (g, e) := groupScaleCall t sq group az au
+      Json.mkObj [("group", ofList structJson g), ("e", ofOpt exc e)]
+    | _, _, _, _, _ => err "bad group_scale args"
+  | some "graph_add_any" =>
+    match parseGraph (getD j "a"), parseStruct (getD j "b") with
+    | some (.ok a), some b =>
+      match graphAddAny a b with
+      | .ok g => Json.mkObj [("g", gstateJson g), ("rows", rowsJson g.rows)]
+      | .error er => excObj er
+    | some (.error er), _ => excObj er
+    | _, _ => err "bad graph_add_any args"
+  | some "h2g_el" =>
+    let mvj := getD j "mv"
+    let mv : Option MakeValueArg :=
+      if mvj.isNull then some .none
+      else match str? mvj with
+        | some "notvar" => some .notVariable
+        | _ => match makeValueOf mvj with
+          | some (some f) => some (.variable f)
+          | _ => none
+    match mv, str? (getD j "mode"), parseNames (getD j "fields"), parseScaleArg (getD j "scale"), bool? (getD j "is_hist"),
+          parseHist (getD j "h"), bool? (getD j "to_graph") with
+    | some mv, some mode, some fields, some sc, some ih, some h, some tg =>
+      match mkHistToGraph mv (modeOf mode) fields sc with
+      | .error er => Json.mkObj [("e", exc er), ("phase", Json.str "init")]
+      | .ok el =>
+        match histToGraphRun el ih h tg with
+        | .error er => Json.mkObj [("e", exc er), ("phase", Json.str "run")]
+        | .ok .unchanged => Json.mkObj [("unchanged", Json.bool true)]
+        | .ok (.graph h1 g) => Json.mkObj [("g", gstateJson g), ("rows", rowsJson g.rows), ("hscale", optNumJson h1.scale)]
+    | _, _, _, _, _, _, _ => err "bad h2g_el args"
+  | some "spec_hist" =>
+    match parseHist (getD j "h"), parseRanges (getD j "ranges") with
+    | some h, some rg =>
+      let axes := h.edges.axes
+      let cs := NArr.cells h.bins
+      let cellJ (p : List Nat × Rat) : Json :=
+        Json.mkObj [("idx", ofList ofNat p.1), ("in_range", Json.bool (inRangeB axes p.1)),
+                    ("edges", ofList pairJson (cellEdgesRef axes p.1)), ("row", ofList ratJson (cellRow axes p))]
+      let (vr, sel) := match rg with
+        | none => (Json.null, Json.null)
+        | some r => (Json.bool (validRangesB axes r),
+                     ofList (fun (p : List Nat × Rat) => ofList ofNat p.1) (cs.filter (fun p => selAll (List.zipWith rangePred axes r) p.1)))
+      Json.mkObj [("wf", Json.bool (wfB h)), ("valid", Json.bool (validB h)), ("nonempty_axes", Json.bool (nonEmptyAxesB h.edges)),
+                  ("index_prod", ofList (ofList ofNat) (NArr.indexProd (h.nbins.map List.range))),
+                  ("cells", ofList cellJ cs), ("valid_ranges", vr), ("selected", sel)]
+    | _, _ => err "bad spec_hist args"
+  | some "spec_map" =>
+    match parseNArr (getD j "bins"), rat? (getD j "c") with
+    | some b, some c =>
+      Json.mkObj [("map", narrJson (NArr.map (· * c) b)), ("values", ofList ratJson (NArr.values b)),
+                  ("sum", ratJson (sumQ (NArr.values b)))]
+    | _, _ => err "bad spec_map args"
+  | some "spec_zip" =>
+    match parseNArr (getD j "a"), parseNArr (getD j "b"), rat? (getD j "w") with
+    | some a, some b, some w =>
+      let z := NArr.zipWith (fun x y => x + y * w) a b
+      let getJ (p : List Nat × Rat) : Json :=
+        Json.arr #[ofList ofNat p.1, match NArr.get? z p.1 with | some (.leaf v) => ratJson v | _ => Json.null]
+      Json.mkObj [("zip", narrJson z), ("get", ofList getJ (NArr.cells a))]
+    | _, _, _ => err "bad spec_zip args"
+  | some "spec_points" =>
+    match parseHist (getD j "h"), str? (getD j "mode"), makeValueOf (getD j "mv") with
+    | some h, some mode, some mv =>
+      Json.mkObj [("points", rowsJson ((NArr.cells h.bins).map (fun p => pointOf (modeOf mode) mv (cellEdgesRef h.edges.axes p.1) p.2)))]
+    | _, _, _ => err "bad spec_points args"
+  | some "spec_csv1" =>
+    match ratList? (getD j "xs"), rat? (getD j "x_last"), ratList? (getD j "vals"), bool? (getD j "dup") with
+    | some xs, some xl, some vals, some dup =>
+      let rows := List.zipWith (fun x v => [x, v]) xs vals ++
+        (if dup then (match vals.getLast? with | some v => [[xl, v]] | none => []) else [])
+      Json.mkObj [("rows", rowsJson rows), ("bins", narrJson (bins1d vals))]
+    | _, _, _, _ => err "bad spec_csv1 args"
+  | some "spec_csv2" =>
+    match ratList? (getD j "xs"), rat? (getD j "x_last"), ratList? (getD j "ys"), rat? (getD j "y_last"),
+          ratLists? (getD j "vals"), bool? (getD j "dup") with
+    | some xs, some xl, some ys, some yl, some vals, some dup =>
+      let rows := (List.zipWith (rowsFor ys yl dup) xs vals).flatten ++
+        (if dup then (match vals.getLast? with | some r => rowsFor ys yl true xl r | none => []) else [])
+      Json.mkObj [("rows", rowsJson rows), ("bins", narrJson (bins2d vals))]
+    | _, _, _, _, _, _ => err "bad spec_csv2 args"
+  | some "spec_names" =>
+    match str? (getD j "coord"), (arr? (getD j "names")).bind (fun a => a.toList.mapM str?) with
+    | some c, some names =>
+      Json.mkObj [("r", ofList (fun (n : String) => Json.arr #[Json.bool (isErrField n.toList), Json.bool (errorFieldOfB c.toList n.toList)]) names)]
+    | _, _ => err "bad spec_names args"
   | _ => err "unknown op"
 
 def main : IO Unit := run handle
